@@ -422,6 +422,10 @@ def run_c14_c(case):
         if len(ref) != n:
             raise Violation('C14.c', f'max_processes=0 returned {len(ref)} systems for {n} simulations', extra={'kind': 'count'})
         ref_fp = [sys_fp(s) for s in ref]
+        if any(q[3] == '_finish_work_order' for x in ref_fp for q in x['queue']):
+            stats['reach']['result_with_work_order_in_progress'] = 1
+        if any(s.env._paused_events for s in ref):
+            stats['reach']['result_with_paused_events'] = 1
         for i, s in enumerate(ref):
             if not s.find_assets(name=f'src{i}_0'):
                 raise Violation('C14.c', f'in-process result #{i} is not the system of index {i}', extra={'kind': 'index_order'})
